@@ -17,7 +17,7 @@ CLAIMED = {
  "C05": dict(
   level="exploration", design="§3 C05", engine="simlib+simos",
   technique="deterministic simulation with fault injection: the tree's readers, parsers, from* filters and writers driven through seeded fault-injecting Read/BufRead/Write seams (chunking, EINTR, hard errors, short writes, flush failures) on documents with injected storage damage (truncation, bit flips, zeroed/duplicated/swapped blocks), each case isolated in a worker process; plus the real binary under errno injection at the system-call boundary",
-  text="RESTRICTED SCOPE - the stream-facing surface of the statement only: documents of every supported format met as faulty byte streams, writers meeting faulty sinks, and the command line under injected I/O faults end in values or a reported error - no panic (catch_unwind, debug assertions and overflow checks on), no crash or hang of the isolated worker process, a bounded number of pulls up to the end or first error, harmless polling after the end, plain bytes on a benign sink and the error on a failing one; the CLI under an injected errno never exits 101, dies of a signal or hangs. NOT decided here: arbitrary filter text and arbitrary argument values to built-in filters - that is a search over inputs with no fault, schedule or history in it, which this technique does not decide (said so in DESIGN.md rather than relabelling a fuzzer).",
+  text="RESTRICTED SCOPE - the stream-facing surface of the statement only: documents of every supported format met as faulty byte streams, stored program text (filter files, module files) met after the same storage damage (compiled and its diagnostics rendered, never run), writers meeting faulty sinks, and the command line under injected I/O faults end in values or a reported error - no panic (catch_unwind, debug assertions and overflow checks on), no crash or hang of the isolated worker process, a bounded number of pulls up to the end or first error, harmless polling after the end, plain bytes on a benign sink and the error on a failing one; the CLI under an injected errno never exits 101, dies of a signal or hangs. NOT decided here: arbitrary argument values to built-in filters, and filter text beyond what storage damage of the seed programs reaches (no grammar-aware search) - a search over inputs with no fault, schedule or history in it, which this technique does not decide (said so in DESIGN.md rather than relabelling a fuzzer).",
   note="Trusted: the fault-injecting seams (simlib/io.rs), the ptrace tracer. Documents are bounded (8 KiB), so nesting depth cannot legitimately exhaust a 1 GiB stack."),
  "C06": dict(
   level="exploration", design="§3 C06", engine="simos",
